@@ -97,3 +97,9 @@ pub uninterp spec fn dm_has_block(fsm: &Fsm, id: u32) -> bool;
 pub struct RFsmExpressionDatamodel {
     _p: (),
 }
+
+// TRUSTED stand-in: the ECMAScript data model (boa engine); only its executeContent is verified here
+#[verifier::external_body]
+pub struct ECMAScriptDatamodel {
+    _p: (),
+}
